@@ -72,6 +72,74 @@ def code(stmts):
     return out
 
 
+
+# ------------------------------------------------------------------ normalisation helpers
+class _Subst(ast.NodeTransformer):
+    """replace loads of alias names by the pure expression they were bound to"""
+
+    def __init__(self, aliases):
+        self.aliases = aliases
+
+    def visit_Name(self, n):
+        if isinstance(n.ctx, ast.Load) and n.id in self.aliases:
+            return ast.parse(self.aliases[n.id], mode='eval').body
+        return n
+
+
+def subst(node, aliases):
+    if not aliases:
+        return node
+    import copy
+    return ast.fix_missing_locations(_Subst(aliases).visit(copy.deepcopy(node)))
+
+
+def pmatch(pattern, node, binds):
+    """structural match of a statement / expression against a pattern given as source text in which
+    names starting with M_ are metavariables standing for a local variable name (consistently:
+    alpha-renaming of locals).  Returns True and extends binds, or False."""
+    pt = ast.parse(pattern).body
+    pt = pt[0] if len(pt) == 1 else pt
+    if isinstance(pt, ast.Expr) and not isinstance(node, ast.Expr):
+        pt = pt.value
+    trial = dict(binds)
+    if _pm(pt, node, trial):
+        binds.clear()
+        binds.update(trial)
+        return True
+    return False
+
+
+def _pm(p, n, b):
+    if isinstance(p, ast.Name) and p.id.startswith('M_'):
+        if not isinstance(n, ast.Name):
+            return False
+        if p.id in b:
+            return b[p.id] == n.id
+        if n.id in b.values():
+            return False          # two metavariables never share a local
+        b[p.id] = n.id
+        return True
+    if type(p) is not type(n):
+        return False
+    if isinstance(p, ast.AST):
+        for f in p._fields:
+            if f in ('ctx', 'type_comment', 'kind'):
+                continue
+            if not _pm(getattr(p, f, None), getattr(n, f, None), b):
+                return False
+        return True
+    if isinstance(p, list):
+        return len(p) == len(n) and all(_pm(x, y, b) for x, y in zip(p, n))
+    return p == n
+
+
+def pure_alias(s, allowed):
+    """`name = <pure attribute read>` with the right-hand side one of `allowed` -> (name, rhs) or None"""
+    if isinstance(s, ast.Assign) and len(s.targets) == 1 and isinstance(s.targets[0], ast.Name) and U(s.value) in allowed:
+        return s.targets[0].id, U(s.value)
+    return None
+
+
 # ------------------------------------------------------------------ conditions
 IGN_HEAD = ['isinstance({o}, (list, tuple))', 'len({o}) > 0', 'isinstance({o}[0], Ignored)']
 
@@ -86,6 +154,8 @@ def cond(n, ctx='ctx'):
     if isinstance(n, ast.BoolOp) and len(n.values) == 2:
         a, b = cond(n.values[0], ctx), cond(n.values[1], ctx)
         return '(%s %s %s)' % ('COr' if isinstance(n.op, ast.Or) else 'CAnd', a, b)
+    if isinstance(n, ast.UnaryOp) and isinstance(n.op, ast.Not):
+        return '(CNot %s)' % cond(n.operand, ctx)
     if U(n) == 'isinstance(%s, Ignored)' % o:
         return 'CIsIgnored'
     if U(n) == '%s.is_out_bare()' % d:
@@ -103,11 +173,12 @@ def cond(n, ctx='ctx'):
     fail('unrecognised condition', n)
 
 
-def if_chain(node, action):
-    """If/elif/.../else -> ([(cond, act)], else_body or None); action(body) -> coq text"""
+def if_chain(node, action, aliases=None):
+    """If/elif/.../else -> ([(cond, act)], else_body or None); action(body) -> coq text.
+    aliases: locals bound to a pure read before the chain, substituted in the tests"""
     rows = []
     while True:
-        rows.append((cond(node.test), action(code(node.body))))
+        rows.append((cond(subst(node.test, aliases)), action(code(node.body))))
         if len(node.orelse) == 1 and isinstance(node.orelse[0], ast.If):
             node = node.orelse[0]
             continue
@@ -165,15 +236,19 @@ def tr_cb_sync(t):
     if [a.arg for a in fn.args.args] != ['ctx', 'cnt', 'fc']:
         fail('_cb_sync: signature')
     body = code(fn.body)
-    if len(body) != 4 or U(body[0]) != 'retval = None' or not isinstance(body[1], ast.If) \
-            or U(body[2]) != 'if cnt > 0:\n    ctx.close()' or U(body[3]) != 'return retval':
+    # `retval = None` before the chain is dead as long as the chain ends in an else (checked below)
+    if body and U(body[0]) == 'retval = None':
+        body = body[1:]
+    if len(body) < 3 or U(body[-2]) != 'if cnt > 0:\n    ctx.close()' or U(body[-1]) != 'return retval' \
+            or not isinstance(body[0], ast.If):
         fail('_cb_sync: unexpected statement sequence')
-    top = body[1]
+    top = body[0]
     if U(top.test) != 'ctx.out_error' or [U(s) for s in code(top.body)] != ['raise ctx.out_error']:
         fail('_cb_sync: error branch')
-    rest = code(top.orelse)
+    # `if e: raise ... else: REST` and `if e: raise ...` followed by REST are the same
+    rest = code(top.orelse) + body[1:-2]
     if len(rest) != 2 or not all(isinstance(s, ast.If) for s in rest):
-        fail('_cb_sync: else branch is not [if-chain, ostr block]')
+        fail('_cb_sync: after the error branch there is not [if-chain, ostr block]')
     rows, els = if_chain(rest[0], cb_action)
     if els is None:
         fail('_cb_sync: chain has no else')
@@ -203,31 +278,49 @@ def tr_function_call(t):
     if after != ['if not self._async:\n    p_ctx.close()', 'return retval']:
         fail('__call__: statements after the loop %r' % (after,))
     body = code(loops[0].body)
-    src = [U(s) for s in body]
-    own = ['_type_info = ctx.descriptor.in_message._type_info']
-    flat = ['in_message = ctx.descriptor.in_message', '_type_info = in_message.get_flat_type_info(in_message)']
-    if src[:1] == own:
-        ti, k = 'TIOwn', 1
-    elif src[:2] == flat:
-        ti, k = 'TIFlat', 2
+    # a local bound to ctx.descriptor.in_message may stand for it in the packing statements
+    aliases = {}
+    k = 0
+    al = pure_alias(body[0], ('ctx.descriptor.in_message',))
+    if al:
+        aliases[al[0]] = al[1]
+        k = 1
+    pk = [subst(x, aliases) for x in body[k:k + 5]]
+    if len(pk) != 5:
+        fail('__call__: packing statements missing')
+    b = {}
+    if pmatch('M_ti = ctx.descriptor.in_message._type_info', pk[0], b):
+        ti = 'TIOwn'
+    elif pmatch('M_ti = ctx.descriptor.in_message.get_flat_type_info(ctx.descriptor.in_message)', pk[0], b):
+        ti = 'TIFlat'
     else:
-        fail('__call__: how _type_info is obtained %r' % (src[:2],))
-    if src[k:k + 2] != ['ctx.in_object = [None] * len(_type_info)',
-                        'for i in range(len(args)):\n    ctx.in_object[i] = args[i]']:
-        fail('__call__: positional packing %r' % (src[k:k + 2],))
-    kwl = src[k + 2]
-    if kwl == ('for i, k in enumerate(_type_info.keys()):\n    val = kwargs.get(k, None)\n'
-               '    if val is not None:\n        ctx.in_object[i] = val'):
-        skip = 'true'
-    elif kwl == 'for i, k in enumerate(_type_info.keys()):\n    if k in kwargs:\n        ctx.in_object[i] = kwargs[k]':
-        skip = 'false'
-    else:
-        fail('__call__: keyword packing %r' % (kwl,))
-    g = body[k + 3]
-    if not isinstance(g, ast.If) or g.orelse or [U(s) for s in code(g.body)] != [
+        fail('__call__: how the field table is obtained', pk[0])
+    if b['M_ti'] in aliases:
+        fail('__call__: the field table rebinds the in_message alias')
+    if not pmatch('ctx.in_object = [None] * len(M_ti)', pk[1], b):
+        fail('__call__: in_object initialisation', pk[1])
+    b1 = dict(b)
+    if not (pmatch('for M_i in range(len(args)):\n    ctx.in_object[M_i] = args[M_i]', pk[2], b1)
+            or pmatch('for M_i, M_a in enumerate(args):\n    ctx.in_object[M_i] = M_a', pk[2], b1)):
+        fail('__call__: positional packing', pk[2])
+    skip = None
+    for it in ('enumerate(M_ti.keys())', 'enumerate(M_ti)'):
+        for get in ('kwargs.get(M_k, None)', 'kwargs.get(M_k)'):
+            if pmatch('for M_j, M_k in %s:\n    M_v = %s\n    if M_v is not None:\n        ctx.in_object[M_j] = M_v'
+                      % (it, get), pk[3], dict(b)):
+                skip = 'true'
+        if pmatch('for M_j, M_k in %s:\n    if M_k in kwargs:\n        ctx.in_object[M_j] = kwargs[M_k]' % it,
+                  pk[3], dict(b)):
+            skip = 'false'
+    if skip is None:
+        fail('__call__: keyword packing', pk[3])
+    g = pk[4]
+    if not isinstance(g, ast.If) or g.orelse or [U(x) for x in code(g.body)] != [
             'ctx.in_object = ctx.descriptor.in_message.get_serialization_instance(ctx.in_object)']:
         fail('__call__: bare conversion', g)
     gc = cond(g.test)
+    src = [U(x) for x in body]
+    k = k + 1        # statements before the in_object initialisation; the fixed statements follow at k + 4
     rest = src[k + 4:]
     want = ['if cnt == 0:\n    p_ctx = ctx\nelse:\n    ctx.descriptor.aux.initialize_context(ctx, p_ctx, error=None)',
             None,
@@ -285,14 +378,18 @@ def tr_process_request(repo):
         fail('process_request: the call_wrapper assignment')
     ci = call[0]
     before, chain_rows = [], None
+    aliases = {}     # locals bound to ctx.descriptor.body_style before the user code runs
     for s in tb[:ci]:
         ev = fire_literal(s)
+        al = pure_alias(s, ('ctx.descriptor.body_style',))
         if ev is not None:
             if chain_rows is not None:
                 fail('process_request: event fired after the in_object normalisation', s)
             before.append(ev)
+        elif al is not None and chain_rows is None:
+            aliases[al[0]] = al[1]
         elif isinstance(s, ast.If) and chain_rows is None:
-            chain_rows, els = if_chain(s, in_action)
+            chain_rows, els = if_chain(s, in_action, aliases)
             if els is not None:
                 fail('process_request: in_object chain has an else')
         else:
